@@ -57,6 +57,12 @@ class FakeRandom:
         return seq[self._c.choose(len(seq))]
 
     def sample(self, population, k, counts=None):  # noqa: ARG002
+        import collections.abc
+        if not isinstance(population, collections.abc.Sequence):
+            # random.sample() of the interpreter in use (3.11+) refuses sets, dict views, iterators
+            raise TypeError("Population must be a sequence.  For dicts or sets, use sorted(d).")
+        if not 0 <= k <= len(population):
+            raise ValueError("Sample larger than population or is negative")
         pool = list(population)
         out = []
         for _ in range(k):
